@@ -982,6 +982,102 @@ func ruleR32_4(c *Check) {
 	}
 }
 
+func ruleR32_5(c *Check) {
+	w := c.W
+	r := c.Rule("R32.5", "E6+E4", 6, "nothing matching is dropped: publishUpdates delivers a subscriber's batch with a plain (blocking) send on its channel, conditional only on the subscriber being active; every entry of every request with a non-empty id set contributes its KV to the batch of each id; in the pattern index a node is pruned (removeEmpty/isEmpty) only when it has no children, no ids and no ignore child — every field of the node that an insertion can populate is tested",
+		"a send that can be skipped when the channel is full, or a node pruned while an ignore-path still hangs below it, silently stops deliveries to a live subscriber")
+	pu := w.F("badger.publisher.publishUpdates")
+	sc := w.Field("badger.subscriber.sendCh")
+	sends := pu.Sites(selSend(sc))
+	r.Exists(len(sends) >= 1, pu, "delivery site", nil, "no send on subscriber.sendCh in publishUpdates")
+	active := w.Field("badger.subscriber.active")
+	var k keyer
+	for _, s := range sends {
+		_, blocking := w.blockingOp(pu, s)
+		r.Check(blocking, pu, k.key("a batch is delivered, not offered", w, s), s, "the send on the subscriber's channel is an arm of a select with a default: when the channel is full the batch is dropped")
+		for _, g := range w.Guards(pu, s) {
+			if g.Implicit || g.Lifted {
+				continue
+			}
+			if _, isFor := g.At.(*ast.ForStmt); isFor {
+				continue
+			}
+			r.Check(w.mentions(g.Cond, active), pu, k.key("delivery depends only on the subscriber being active", w, s), s, "the delivery is conditional on "+short(w, g.Cond))
+		}
+	}
+	// every id of a matching entry gets the KV
+	okIds := false
+	pu.walk(func(n ast.Node) bool {
+		rs, ok := n.(*ast.RangeStmt)
+		if !ok {
+			return true
+		}
+		if id, ok := unparen(rs.X).(*ast.Ident); ok {
+			if v, ok := w.Use(id).(*types.Var); ok {
+				for _, d := range w.DefsOf(pu, v) {
+					if w.isCallTo(d, w.Func("trie.Trie.Get")) {
+						// body appends to the per-id batch
+						ast.Inspect(rs.Body, func(m ast.Node) bool {
+							if as, ok := m.(*ast.AssignStmt); ok && w.fieldOf(as.Lhs[0]) == w.Field("pb.KVList.Kv") {
+								okIds = len(w.Guards(pu, as)) == len(w.Guards(pu, rs))
+							}
+							return true
+						})
+					}
+				}
+			}
+		}
+		return true
+	})
+	r.Check(okIds, pu, "the KV goes into the batch of every matching subscriber", nil, "publishUpdates does not append the KV for each id returned by the index")
+	// pruning
+	ie := w.F("trie.node.isEmpty")
+	nodeT, _ := w.Obj("trie.node").(*types.TypeName)
+	if nodeT != nil {
+		st := nodeT.Type().Underlying().(*types.Struct)
+		body, _ := w.tinyBody(ie.Obj)
+		for i := 0; i < st.NumFields(); i++ {
+			fld := st.Field(i)
+			// fields an insertion populates: maps, slices and node pointers
+			switch fld.Type().Underlying().(type) {
+			case *types.Map, *types.Slice, *types.Pointer:
+			default:
+				continue
+			}
+			okF := false
+			var src ast.Node = ie.Body
+			if body != nil {
+				src = body
+			}
+			ast.Inspect(src, func(m ast.Node) bool {
+				if se, ok := m.(*ast.SelectorExpr); ok && w.fieldOf(se) == fld {
+					okF = true
+				}
+				return true
+			})
+			r.Check(okF, ie, "a node holding "+fld.Name()+" is not empty", nil, "node.isEmpty does not look at node."+fld.Name()+": removeEmpty prunes nodes that still carry it")
+		}
+		if body != nil {
+			// a conjunction: empty only if ALL are empty
+			conj := true
+			ast.Inspect(body, func(m ast.Node) bool {
+				if be, ok := m.(*ast.BinaryExpr); ok && be.Op == token.LOR {
+					conj = false
+				}
+				return true
+			})
+			r.Check(conj, ie, "empty means all parts empty", nil, "node.isEmpty is true when only some part of the node is empty")
+		}
+	}
+	re := w.F("trie.removeEmpty")
+	for _, s := range re.Sites(selStore(w.Field("trie.node.ignore"))) {
+		g := HasGuard(w.Guards(re, s), true, func(e ast.Expr) bool {
+			return w.isCallTo(w.Origin(re, e), w.Func("trie.removeEmpty")) || (func() bool { id, ok := unparen(e).(*ast.Ident); return ok && id != nil && len(w.DefsOf(re, func() *types.Var { v, _ := w.Use(id).(*types.Var); return v }())) > 0 })()
+		})
+		r.Check(g != nil, re, "an ignore child is dropped only when it is empty", s, "node.ignore is cleared without the child having been found empty")
+	}
+}
+
 // embeddedMutex: the sync.Mutex embedded in a named struct (field object), nil if none.
 func embeddedMutex(w *World, typeName string) *types.Var {
 	tn, ok := w.Obj(typeName).(*types.TypeName)
@@ -1006,6 +1102,7 @@ func propC32(c *Check) {
 	ruleR32_2(c)
 	ruleR32_3(c)
 	ruleR32_4(c)
+	ruleR32_5(c)
 	ruleR03_1(c)
 	ruleR03_4(c)
 }
